@@ -588,6 +588,11 @@ func (p *prog) jsonFam() {
 		p.add("%s = json.decode(%s)", x, q(p.jsonText(0)))
 		p.out(x)
 		p.add("print(%s, json.encode(%s))", x, x)
+		if p.chance(0.5) {
+			// decoded values are fresh and mutable in every execution
+			p.add("if type(%s) == \"dict\":\n    %s[\"added-after-decoding\"] = len(%s)\nelif type(%s) == \"list\":\n    %s.append(len(%s))", x, x, x, x, x, x)
+			p.out(x)
+		}
 	}
 	if p.chance(0.25) {
 		// failing encodes: which key is reported must not depend on anything but the program
